@@ -343,4 +343,21 @@ example : joinOrDie 10 3 (some 13) 0 false = (.timeout, 10) := by decide
 example : joinOrDie 10 3 (some 9) 5 false = (.own, 10) := by decide
 example : joinOrDie 0 3 none 0 false = (.timeout, 0) := by decide
 
+/-! #### the lock probe -/
+
+/-- before the fix: with the target past its body (the lock is free) two killers probing at the same time —
+    the second try-acquire falls between the first killer's acquire and release — make the second one
+    conclude that the body is running: it goes on to raise the exception in a thread that is in its handlers -/
+theorem probe_by_acquire_misleads_a_second_killer :
+    (([ProbeAct.tryAcquire 0, .tryAcquire 1, .release 0].foldl probeStep {}).sawRunning 1 = some true) ∧
+    (([ProbeAct.tryAcquire 0, .tryAcquire 1, .release 0].foldl probeStep {}).sawRunning 0 = some false) := by
+  constructor <;> rfl
+
+/-- the probe that only reads the lock says "running" exactly when somebody holds it, and nobody but the
+    target ever takes it (`kTry` of the transition system above is this read) -/
+theorem c12_locked_probe_is_the_targets_hold (t : T) :
+    lockedProbe (if lockHeld t then some 0 else none) = lockHeld t := by
+  cases h : lockHeld t <;> simp [lockedProbe]
+
+
 end OpenHTF.Kill
